@@ -34,12 +34,15 @@ class _Tqdm:
         pass
 
 
-def _build(names, circular):
+def _build(names, circular, key0=0):
     g = _monomers_to_linear_nx_graph(names)
     if circular:
         n = len(names)
         g.add_edge(0, n - 1)
         g.edges[(0, n - 1)]["linktype"] = "circle"
+    if key0:
+        # the same strand with integer node keys that do not start at 0 (e.g. a .json sequence with 1-based ids)
+        g = nx.relabel_nodes(g, {i: i + key0 for i in g.nodes})
     return MetaMolecule(g, mol_name="dna")
 
 
@@ -48,12 +51,12 @@ def _build(names, circular):
                     "polyply.src.meta_molecule:MetaMolecule.add_monomer"],
            rejects=(),
            stubs=["gen_dna.tqdm -> silent"],
-           outside=["strands longer than the bound", "circular strands of fewer than 3 residues",
+           outside=["strands longer than the bound", "non-integer node keys (the code computes new keys by integer arithmetic)", "circular strands of fewer than 3 residues",
                     "residue graphs that are not a single strand"],
            selector_only=True,
            must_cover=["linear", "circular", "unknown rejected", "n=1"],
-           bounds={"quick": dict(nmax=4, alphabet=["DA", "DT", "DG", "DC", "DA5", "DC3", "DG3", "DT5", "XX"]),
-                   "thorough": dict(nmax=5, alphabet=ALL12 + ["XX", "A"])},
+           bounds={"quick": dict(nmax=4, alphabet=["DA", "DT", "DG", "DC", "DA5", "DC3", "DG3", "DT5", "XX"], key0=[0, 1]),
+                   "thorough": dict(nmax=5, alphabet=ALL12 + ["XX", "A"], key0=[0, 1, 10])},
            budget={"quick": 200, "thorough": 1500})
 def complement(sx, B):
     """Real complement_dsDNA on a strand built with the real linear builder: length n symbolic in 1..nmax, every residue name a
@@ -64,7 +67,8 @@ def complement(sx, B):
     n = int(sx.int("n", 1, B["nmax"]))
     circular = sx.sel("circular", [False, True]) if n >= 3 else False
     names = [sx.sel("name%d" % i, B["alphabet"]) for i in range(n)]
-    meta = _build(names, circular)
+    key0 = sx.sel("first_node_key", B["key0"])
+    meta = _build(names, circular, key0)
     before_nodes = {k: dict(v) for k, v in meta.nodes(data=True)}
     before_edges = {frozenset(e[:2]): dict(e[2]) for e in meta.edges(data=True)}
     has_unknown = any(comp(x) is None for x in names)
@@ -80,15 +84,17 @@ def complement(sx, B):
             return
     sx.claim(not has_unknown, "unknown residue names are rejected", lambda: "%r accepted" % (names,))
     nodes = list(meta.nodes)
-    sx.claim(len(nodes) == 2 * n, "2n residues", lambda: "%d residues for n=%d" % (len(nodes), n))
+    if not sx.claim(len(nodes) == 2 * n, "2n residues", lambda: "%d residues for n=%d" % (len(nodes), n)):
+        return
     # first strand unchanged
     for k, attrs in before_nodes.items():
         sx.claim(k in meta.nodes and all(meta.nodes[k].get(a) == v for a, v in attrs.items()), "first strand unchanged")
     by_resid = {}
     for k in meta.nodes:
         by_resid.setdefault(meta.nodes[k]["resid"], []).append(k)
-    sx.claim(sorted(by_resid) == list(range(1, 2 * n + 1)) and all(len(v) == 1 for v in by_resid.values()),
-             "residue ids are 1..2n, each once", lambda: "resids %r" % sorted((meta.nodes[k]["resid"]) for k in meta.nodes))
+    if not sx.claim(sorted(by_resid) == list(range(1, 2 * n + 1)) and all(len(v) == 1 for v in by_resid.values()),
+                    "residue ids are 1..2n, each once", lambda: "resids %r" % sorted((meta.nodes[k]["resid"]) for k in meta.nodes)):
+        return
     node_of = {r: v[0] for r, v in by_resid.items()}
     for k in range(1, n + 1):
         want = comp(names[n - k])       # residue n+1-k is names[n-k]
@@ -109,9 +115,11 @@ def complement(sx, B):
              lambda: "labels %r expected %r" % (got_edges, want_edges))
     # involution: complementing the added strand again recovers the original sequence
     second = [meta.nodes[node_of[n + k]]["resname"] for k in range(1, n + 1)]
-    meta2 = _build(second, circular)
+    meta2 = _build(second, circular, key0)
     with patched(gen_dna, tqdm=_Tqdm):
         gen_dna.complement_dsDNA(meta2)
     r2 = {meta2.nodes[k]["resid"]: meta2.nodes[k]["resname"] for k in meta2.nodes}
+    if not sx.claim(len(meta2.nodes) == 2 * n, "2n residues (second completion)"):
+        return
     sx.claim([r2.get(n + k) for k in range(1, n + 1)] == names, "complementing the added strand recovers the original",
              lambda: "%r -> %r -> %r" % (names, second, [r2.get(n + k) for k in range(1, n + 1)]))
